@@ -1,22 +1,61 @@
 /-
   C16 — rendered reports show the right lines with aligned, correctly placed marks.
-  INTERIM file.  Proved here about the model of display.rs / highlight.rs: the
-  colour code paths and the plain code paths produce the same text once the
-  painting function is the identity — for the gutter, for every riser state and
-  for the mark rows of every highlight the public API can build (no start
-  message) — which is the per-piece form of "the plain rendering equals the
-  coloured rendering with escape codes removed"; and the gutter is
-  right-aligned to the given width followed by ` | `.  The layout theorem
-  (`writeCodeDisplay` = `Spec.reportRows` for well-behaved highlights) is in
-  progress; the `render` / `rendercolor` correspondence families (exact output
-  strings, real ANSI codes included) + the layout specification as oracle carry
-  the statement meanwhile.  Recorded finding F10 is replayed by the check.
+
+  English.  Take any text, line-ending style, tab width ≥ 1 and character widths,
+  and a report whose span displays are built by `SpanDisplay::new` from spans whose
+  two ends are aligned character boundaries carrying their canonical positions
+  (as in C18).  Then, for the model of display.rs / highlight.rs / message.rs /
+  note.rs (which reproduces the real output byte for byte on the `render` /
+  `rendercolor` families):
+
+  * `C16_colour_path_agrees`: when no highlight has a start message (what
+    `Highlight::new` builds) and there is no error code, the colour code path
+    with the identity painter produces exactly the text of the plain code path —
+    colour is the plain rendering up to painting.  (Piecewise forms:
+    `C16_gutter_colour_path_agrees`, `C16_riser_colour_path_agrees`,
+    `C16_mark_row_colour_path_agrees`.)
+  * `C16_render_total`, `C16_render_total_report` (the renderer half of C01):
+    `SpanDisplay::new` succeeds and writing the display / the whole report never
+    panics, for any painter and either colour setting, provided no highlight
+    carries two messages (the `todo!()`), and fewer than 256 highlights are
+    multi-line (the riser-width conversion).  The other panic sites
+    (`widen_to_line`, `split_lines`' `expect`, `clipped` of every line piece)
+    are proved unreachable.
+  * `C16_lines_once_in_order`: the body of a plain display is, after the header
+    row and the blank gutter row, exactly one block per line of the text under
+    the widened span, in order; block `i` starts with the source row
+    `<line number first+i right-aligned> | <risers>[ ]<text of line i verbatim>⏎`
+    and continues with that line's mark rows only (each the blank gutter, riser
+    columns and the mark text of a highlight that has a mark on that line).
+  * `C16_gutter_aligned`: `{:>w$}` yields `max w len` characters; the number of
+    decimal digits is monotone, so with the gutter width `SpanDisplay::new`
+    chooses (digits of the span's last line; widening keeps the last line) every
+    gutter of the display is exactly that wide: all `|` separators are in one column.
+  * `C16_layout_partial`: if every highlight is well-behaved (`Spec.wellBehaved`:
+    single-line, or multi-line from column 0 of the first displayed line to the
+    middle of a displayed line) and carries exactly an end message, the plain
+    rendering of the display is, row for row, `Spec.displayRows` over the lines
+    `SplitLines` yields — the riser state machine of highlight.rs agrees with the
+    index-based layout specification.  `C16_layout_single_line` is the special
+    case with single-line highlights only.  Other multi-line shapes are the
+    recorded defect F10 and are NOT covered: the unrestricted statement
+    `C16_layout_statement` is refuted by a concrete F10 witness
+    (`C16_layout_statement_false`).  `C16_layout_report_partial` lifts the theorem
+    to the whole plain report (`Spec.reportRows`), i.e. to exactly the comparison
+    the differential driver makes.
+  * `C16_strip_partial`: removing `ESC [ … m` sequences from one painted string
+    gives the string back, when the string itself contains no ESC.
+
+  Lean: `TephraModel.Render` against `TephraModel.Spec.RenderSpec`; a span is
+  `t = a ++ mid ++ z` as in C18.  Unbounded in the text, the number of lines and
+  the number of highlights (< 256 multi-line ones, as in the Rust).
 -/
+import TephraProofs.RenderProof
 import TephraModel.Render
 import TephraModel.Spec.RenderSpec
 
 namespace Tephra.Props
-open Tephra Tephra.Render
+open Tephra Tephra.Render Tephra.Spec Tephra.LinesPf Tephra.RenderPf
 
 theorem C16_gutter_shape (v : String) (w : Nat) :
     writeGutter plainPaint false v w = padLeft w v ++ " | " := rfl
@@ -34,5 +73,358 @@ theorem C16_mark_row_colour_path_agrees (h : Highlight) (line : Nat) (sp : Bool)
   simp [writeMessage, plainPaint, hs]
 
 example : padLeft 3 "10" = " 10" := by decide
+
+/-! ### 1. colour path -/
+
+/-- The colour code path under the identity painter is the plain code path. -/
+theorem C16_colour_path_agrees (src : Source) (cd : CodeDisplay)
+    (hstart : ∀ sd ∈ cd.spans, ∀ h ∈ sd.highlights, h.startMsg = none) (hcode : cd.codeId = none) :
+    writeCodeDisplay plainPaint src { cd with colorEnabled := true } =
+      writeCodeDisplay plainPaint src { cd with colorEnabled := false } :=
+  writeCodeDisplay_colour src cd hstart hcode
+
+/-- The same for one span display. -/
+theorem C16_colour_path_agrees_display (src : Source) (sd : SpanDisplay)
+    (hstart : ∀ h ∈ sd.highlights, h.startMsg = none) :
+    writeSpanDisplay plainPaint true src sd = writeSpanDisplay plainPaint false src sd :=
+  writeSpanDisplay_colour src sd hstart
+
+/-! ### 2. no panic -/
+
+/-- `SpanDisplay::new` on a canonical span succeeds, and writing the display with any
+highlights (never two messages on one highlight, fewer than 256 multi-line ones) does not
+panic — any painter, colour on or off. -/
+theorem C16_render_total (paint : Style → String → String) (color : Bool)
+    (m : Metrics) (_htab : 1 ≤ m.tab) (a mid z : Text) (hwf : Text.WF (a ++ mid ++ z))
+    (ha1 : aligned m a (mid ++ z) = true) (ha2 : aligned m (a ++ mid) z = true)
+    (name : Option String) (hls : List Highlight)
+    (hmsg : ∀ h ∈ hls, h.startMsg = none ∨ h.endMsg = none)
+    (hmulti : (hls.filter (·.isMultiline)).length < 256) :
+    let src : Source := ⟨a ++ mid ++ z, m, Pos.zero⟩
+    ∃ sd, SpanDisplay.new src name ⟨canon m a, canon m (a ++ mid)⟩ = .ok sd ∧
+      writeSpanDisplay paint color src { sd with highlights := hls } ≠ .panic := by
+  refine ⟨_, spanDisplay_new_ok m a mid z hwf ha1 ha2 name, ?_⟩
+  obtain ⟨s, hs⟩ := writeSpanDisplay_ok paint color m a mid z hwf
+    { name := name, span := widenSpec m a mid z, highlights := hls, notes := [],
+      gutter := gutterWidth (canon m (a ++ mid)).line } rfl hmsg hmulti
+  rw [hs]; simp
+
+/-- a span display of the text `t` that `SpanDisplay::new` built from a canonical span, with
+highlights and notes added afterwards -/
+def CanonDisplay (m : Metrics) (t : Text) (sd : SpanDisplay) : Prop :=
+  ∃ (a mid z : Text) (name : Option String) (sd0 : SpanDisplay),
+    t = a ++ mid ++ z ∧ aligned m a (mid ++ z) = true ∧ aligned m (a ++ mid) z = true ∧
+    SpanDisplay.new ⟨t, m, Pos.zero⟩ name ⟨canon m a, canon m (a ++ mid)⟩ = .ok sd0 ∧
+    sd = { sd0 with highlights := sd.highlights, notes := sd.notes } ∧
+    (∀ h ∈ sd.highlights, h.startMsg = none ∨ h.endMsg = none) ∧
+    (sd.highlights.filter (·.isMultiline)).length < 256
+
+/-- Writing a whole report whose displays are all of that kind does not panic. -/
+theorem C16_render_total_report (paint : Style → String → String)
+    (m : Metrics) (_htab : 1 ≤ m.tab) (t : Text) (hwf : Text.WF t) (cd : CodeDisplay)
+    (hall : ∀ sd ∈ cd.spans, CanonDisplay m t sd) :
+    writeCodeDisplay paint ⟨t, m, Pos.zero⟩ cd ≠ .panic := by
+  obtain ⟨s, hs⟩ := writeCodeDisplay_ok paint ⟨t, m, Pos.zero⟩ cd (by
+    intro sd hsd
+    obtain ⟨a, mid, z, name, sd0, rfl, ha1, ha2, hnew, hsd0, hmsg, hmulti⟩ := hall sd hsd
+    rw [spanDisplay_new_ok m a mid z hwf ha1 ha2 name] at hnew
+    injection hnew with hnew
+    exact writeSpanDisplay_ok paint cd.colorEnabled m a mid z hwf sd
+      (by rw [hsd0, ← hnew]) hmsg hmulti)
+  rw [hs]; simp
+
+/-! ### 3. every line once, in order -/
+
+/-- The body of a plain display: one block per line of the text `mid'` under the widened span
+(`t = a0 ++ mid' ++ rem`, both cuts aligned), in order; block `i` is the source row of line `i`
+(number `first + i`, text verbatim) followed by that line's mark rows. -/
+theorem C16_lines_once_in_order (m : Metrics) (_htab : 1 ≤ m.tab) (a mid z : Text)
+    (hwf : Text.WF (a ++ mid ++ z)) (sd : SpanDisplay) (hspan : sd.span = widenSpec m a mid z)
+    (out : String)
+    (h : writeSpanDisplay plainPaint false ⟨a ++ mid ++ z, m, Pos.zero⟩ sd = .ok out) :
+    ∃ a0 mid' rem rows, a ++ mid ++ z = a0 ++ mid' ++ rem ∧
+      sd.span = ⟨canon m a0, canon m (a0 ++ mid')⟩ ∧
+      aligned m a0 (mid' ++ rem) = true ∧ aligned m (a0 ++ mid') rem = true ∧
+      sd.span.e.line = sd.span.s.line + ((linesOf m mid').length - 1) ∧
+      out = rep " " sd.gutter ++ "-->" ++ " " ++ (match sd.name with | some n => n ++ ":" | none => "")
+              ++ "(" ++ showSpan sd.span ++ ")\n" ++ (padLeft sd.gutter "" ++ " | ") ++ "\n" ++
+            String.join rows ++
+            String.join (sd.notes.map fun n =>
+              rep " " sd.gutter ++ " = " ++ writeNote plainPaint false n ++ "\n") ∧
+      rows.length = (linesOf m mid').length ∧
+      ∀ i l, (linesOf m mid')[i]? = some l → ∃ ris msgs,
+        rows[i]? = some (padLeft sd.gutter (toString (sd.span.s.line + i)) ++ " | " ++ ris ++
+          (if sd.highlights.any (·.isMultiline) then " " else "") ++ textString l ++ "\n" ++ msgs) ∧
+        MsgRows sd.gutter sd.highlights (sd.span.s.line + i) msgs :=
+  writeSpanDisplay_shape m a mid z hwf sd hspan out h
+
+/-- The structured form: the loop over the pieces emits, for pieces that clip to the lines `L`
+numbered from `n`, exactly one block per piece, in order. -/
+theorem C16_lines_once_in_order_rows (src : Source) (w : Nat) (hls : List Highlight)
+    (n : Nat) (L : List Text) (pieces : List Span) (sts : List Riser) (s : String)
+    (hp : PiecesOK src n L pieces) (h : lineRows plainPaint false src w hls pieces sts = .ok s) :
+    ∃ rows : List String, s = String.join rows ∧ rows.length = L.length ∧
+      ∀ i l, L[i]? = some l → ∃ ris msgs,
+        rows[i]? = some (padLeft w (toString (n + i)) ++ " | " ++ ris ++
+          (if hls.any (·.isMultiline) then " " else "") ++ textString l ++ "\n" ++ msgs) ∧
+        MsgRows w hls (n + i) msgs :=
+  lineRows_shape src w hls n L pieces sts s hp h
+
+/-- The pieces `SplitLines` yields on a canonical span are such pieces: piece `i` clips to
+line `i` of the text under the span and carries line number `first + i`. -/
+theorem C16_pieces_are_lines (m : Metrics) (_htab : 1 ≤ m.tab) (a mid z : Text)
+    (hwf : Text.WF (a ++ mid ++ z))
+    (ha1 : aligned m a (mid ++ z) = true) (ha2 : aligned m (a ++ mid) z = true) :
+    let src : Source := ⟨a ++ mid ++ z, m, Pos.zero⟩
+    (SplitLines.ofSpan ⟨canon m a, canon m (a ++ mid)⟩ src).collect
+        ((canon m (a ++ mid)).line - (canon m a).line + 2) = .ok (splitSpec m a mid z, 0) ∧
+      PiecesOK src (canon m a).line (linesOf m mid) ((splitSpec m a mid z).map (·.2)) :=
+  ⟨collect_wide m a mid z hwf ha1 ha2, pieces_ok m z (linesOf m mid) a mid rfl hwf ha1 ha2⟩
+
+/-! ### 4. gutters -/
+
+/-- `{:>w$}` pads to `max w len`; digit counts are monotone; hence with the width chosen by
+`SpanDisplay::new` (digits of the last line of the span; widening keeps that line) the gutter of
+every line up to the last, and the blank gutter, are exactly that wide. -/
+theorem C16_gutter_aligned :
+    (∀ (w : Nat) (s : String), (padLeft w s).length = max w s.length) ∧
+    (∀ line last : Nat, line ≤ last → (toString line).length ≤ gutterWidth last) ∧
+    (∀ line last : Nat, line ≤ last →
+      (padLeft (gutterWidth last) (toString line)).length = gutterWidth last) ∧
+    (∀ w : Nat, (padLeft w "").length = w) ∧
+    (∀ (m : Metrics) (a mid z : Text), aligned m (a ++ mid) z = true →
+      (widenSpec m a mid z).e.line = (canon m (a ++ mid)).line) :=
+  ⟨padLeft_length, fun _ _ h => gutterWidth_mono h, fun _ _ h => padLeft_gutter_length h,
+    padLeft_empty_length, widen_e_line⟩
+
+/-- In a display built by `SpanDisplay::new` from a canonical span, every source row's gutter
+(lines `first … last` of the widened span) is exactly `sd.gutter` characters wide. -/
+theorem C16_gutter_aligned_display (m : Metrics) (_htab : 1 ≤ m.tab) (a mid z : Text)
+    (hwf : Text.WF (a ++ mid ++ z))
+    (ha1 : aligned m a (mid ++ z) = true) (ha2 : aligned m (a ++ mid) z = true)
+    (name : Option String) (sd : SpanDisplay)
+    (hnew : SpanDisplay.new ⟨a ++ mid ++ z, m, Pos.zero⟩ name ⟨canon m a, canon m (a ++ mid)⟩ = .ok sd)
+    (line : Nat) (hline : line ≤ sd.span.e.line) :
+    (padLeft sd.gutter (toString line)).length = sd.gutter ∧ (padLeft sd.gutter "").length = sd.gutter := by
+  rw [spanDisplay_new_ok m a mid z hwf ha1 ha2 name] at hnew
+  injection hnew with hnew
+  subst hnew
+  simp only at hline ⊢
+  rw [widen_e_line m a mid z ha2] at hline
+  exact ⟨padLeft_gutter_length hline, padLeft_empty_length _⟩
+
+/-! ### 5. layout -/
+
+/-- The layout statement without the restriction to well-behaved highlights.  It does NOT
+hold for the model (nor for the real code): multi-line highlights of other shapes are finding
+F10, see `C16_layout_statement_false`.  `C16_layout_partial` is the proved part. -/
+def C16_layout_statement : Prop :=
+  ∀ (m : Metrics), 1 ≤ m.tab → ∀ (a mid z : Text), Text.WF (a ++ mid ++ z) →
+    aligned m a (mid ++ z) = true → aligned m (a ++ mid) z = true →
+    ∀ (name : Option String) (sd : SpanDisplay) (hls : List Highlight),
+    SpanDisplay.new ⟨a ++ mid ++ z, m, Pos.zero⟩ name ⟨canon m a, canon m (a ++ mid)⟩ = .ok sd →
+    (∀ h ∈ hls, h.startMsg = none ∧ ∃ msg, h.endMsg = some msg) →
+    (hls.filter (·.isMultiline)).length < 256 →
+    ∃ pieces n,
+      (SplitLines.ofSpan sd.span ⟨a ++ mid ++ z, m, Pos.zero⟩).collect
+        (sd.span.e.line - sd.span.s.line + 2) = .ok (pieces, n) ∧
+      writeSpanDisplay plainPaint false ⟨a ++ mid ++ z, m, Pos.zero⟩ { sd with highlights := hls } =
+        .ok ("\n".intercalate (displayRows name sd.span sd.gutter
+              (pieceLines (a ++ mid ++ z) (pieces.map (·.2))) hls) ++ "\n")
+
+/-- Finding F10, concretely: the LF text `ab⏎cd⏎ef`, displayed whole, with one multi-line
+highlight that starts in the middle of line 0 (column 1) and ends in the middle of line 1. -/
+def f10Metrics : Metrics := ⟨.lf, 4⟩
+def f10Text : Text := [⟨97, 1, 1⟩, ⟨98, 1, 1⟩, ⟨10, 1, 0⟩, ⟨99, 1, 1⟩, ⟨100, 1, 1⟩, ⟨10, 1, 0⟩,
+  ⟨101, 1, 1⟩, ⟨102, 1, 1⟩]
+def f10Highlights : List Highlight := [⟨⟨⟨1, 0, 1⟩, ⟨4, 1, 1⟩⟩, none, some "m", .error⟩]
+
+/-- Finding F10 refutes the unrestricted layout statement: for the display above the model
+(and the real code) prints the riser `|` on the start-mark row and blanks below it,
+`0 |   ab / | |_^ / 1 |   cd / |  _^ m`, where the layout asks for
+`0 |   ab / |  _^ / 1 | | cd / | |_^ m`. -/
+theorem C16_layout_statement_false : ¬ C16_layout_statement := by
+  intro hst
+  have hwf : Text.WF ([] ++ f10Text ++ []) := by
+    intro c hc
+    simp [f10Text] at hc
+    rcases hc with rfl | rfl | rfl | rfl | rfl | rfl | rfl | rfl <;> decide
+  have hw : widenSpec f10Metrics [] f10Text [] = ⟨canon f10Metrics [], canon f10Metrics ([] ++ f10Text)⟩ := by
+    simp [widenSpec, curLinePre, curLineSuf]
+  obtain ⟨pieces, n, hc, hout⟩ := hst f10Metrics (by decide) [] f10Text [] hwf (by decide) (by decide) none _ f10Highlights
+    (spanDisplay_new_ok f10Metrics [] f10Text [] hwf (by decide) (by decide) none)
+    (by intro h hh; simp [f10Highlights] at hh; subst hh; simp) (by decide)
+  simp only [hw] at hc hout
+  have hcol := collect_wide f10Metrics [] f10Text [] hwf (by decide) (by decide)
+  rw [hcol] at hc
+  injection hc with hc
+  injection hc with hc1 hc2
+  subst hc1
+  have hp : PiecesOK ⟨[] ++ f10Text ++ [], f10Metrics, Pos.zero⟩ (canon f10Metrics []).line (linesOf f10Metrics f10Text)
+      ((splitSpec f10Metrics [] f10Text []).map (·.2)) :=
+    pieces_ok f10Metrics [] (linesOf f10Metrics f10Text) [] f10Text rfl hwf (by decide) (by decide)
+  have hpieces : splitSpec f10Metrics [] f10Text [] =
+      [(3, ⟨⟨0, 0, 0⟩, ⟨2, 0, 2⟩⟩), (2, ⟨⟨3, 1, 0⟩, ⟨5, 1, 2⟩⟩), (1, ⟨⟨6, 2, 0⟩, ⟨8, 2, 2⟩⟩)] := by
+    simp [splitSpec, piecesFrom, canon, canonFrom, linesOf, breakAt, lbCodes, lbLen, stripCodes,
+      colWidth, bytes, Pos.zero, f10Metrics, f10Text]
+  have hL : linesOf f10Metrics f10Text = [[⟨97, 1, 1⟩, ⟨98, 1, 1⟩], [⟨99, 1, 1⟩, ⟨100, 1, 1⟩], [⟨101, 1, 1⟩, ⟨102, 1, 1⟩]] := by
+    simp [linesOf, breakAt, lbCodes, stripCodes, f10Metrics, f10Text]
+  have hcan1 : canon f10Metrics ([] ++ f10Text) = ⟨8, 2, 2⟩ := by
+    simp [canon, canonFrom, linesOf, breakAt, lbCodes, stripCodes, colWidth, bytes, Pos.zero, f10Metrics, f10Text]
+  rw [hL] at hp
+  simp only [hpieces, List.map_cons, List.map_nil, PiecesOK] at hp
+  obtain ⟨c1, s1, -, c2, s2, -, c3, s3, -, -⟩ := hp
+  simp only [writeSpanDisplay, hcol, hpieces] at hout
+  simp only [hcan1, canon_nil, List.map_cons, List.map_nil, lineRows, c1, c2, c3, pieceLines,
+    List.filterMap_cons, List.filterMap_nil, s1, s2, s3] at hout
+  revert hout
+  decide
+
+/-- Layout for well-behaved highlights (extra hypothesis `hwell`): the plain rendering of the
+display is the specification's rows over the lines `SplitLines` yields, each followed by a
+newline. -/
+theorem C16_layout_partial (m : Metrics) (_htab : 1 ≤ m.tab) (a mid z : Text)
+    (hwf : Text.WF (a ++ mid ++ z))
+    (ha1 : aligned m a (mid ++ z) = true) (ha2 : aligned m (a ++ mid) z = true)
+    (name : Option String) (sd : SpanDisplay) (hls : List Highlight)
+    (hnew : SpanDisplay.new ⟨a ++ mid ++ z, m, Pos.zero⟩ name ⟨canon m a, canon m (a ++ mid)⟩ = .ok sd)
+    (hmsg : ∀ h ∈ hls, h.startMsg = none ∧ ∃ msg, h.endMsg = some msg)
+    (hmulti : (hls.filter (·.isMultiline)).length < 256)
+    (hwell : ∀ h ∈ hls, wellBehaved sd.span.s.line sd.span.e.line h = true) :
+    ∃ pieces n,
+      (SplitLines.ofSpan sd.span ⟨a ++ mid ++ z, m, Pos.zero⟩).collect
+        (sd.span.e.line - sd.span.s.line + 2) = .ok (pieces, n) ∧
+      writeSpanDisplay plainPaint false ⟨a ++ mid ++ z, m, Pos.zero⟩ { sd with highlights := hls } =
+        .ok ("\n".intercalate (displayRows name sd.span sd.gutter
+              (pieceLines (a ++ mid ++ z) (pieces.map (·.2))) hls) ++ "\n") := by
+  rw [spanDisplay_new_ok m a mid z hwf ha1 ha2 name] at hnew
+  injection hnew with hnew
+  subst hnew
+  exact writeSpanDisplay_layout_canon m a mid z hwf
+    { name := name, span := widenSpec m a mid z, highlights := hls, notes := [],
+      gutter := gutterWidth (canon m (a ++ mid)).line } rfl rfl hmulti
+    (fun h hh => ⟨hwell h hh, (hmsg h hh).1, (hmsg h hh).2⟩)
+
+/-- Non-vacuity: the LF text `ab⏎cd⏎ef`, the span over all of it, a multi-line highlight from
+the start of line 0 to the middle of line 1 and a single-line highlight on line 2 satisfy every
+hypothesis of `C16_layout_partial`. -/
+example :
+    let m : Metrics := ⟨.lf, 4⟩
+    let a : Text := []
+    let mid : Text := [⟨97, 1, 1⟩, ⟨98, 1, 1⟩, ⟨10, 1, 0⟩, ⟨99, 1, 1⟩, ⟨100, 1, 1⟩, ⟨10, 1, 0⟩,
+      ⟨101, 1, 1⟩, ⟨102, 1, 1⟩]
+    let z : Text := []
+    let hls : List Highlight := [⟨⟨⟨0, 0, 0⟩, ⟨4, 1, 1⟩⟩, none, some "multi", .error⟩,
+      ⟨⟨⟨6, 2, 0⟩, ⟨8, 2, 2⟩⟩, none, some "single", .note⟩]
+    1 ≤ m.tab ∧ Text.WF (a ++ mid ++ z) ∧ aligned m a (mid ++ z) = true ∧
+      aligned m (a ++ mid) z = true ∧
+      ∃ sd, SpanDisplay.new ⟨a ++ mid ++ z, m, Pos.zero⟩ (some "src")
+          ⟨canon m a, canon m (a ++ mid)⟩ = .ok sd ∧
+        (∀ h ∈ hls, h.startMsg = none ∧ ∃ msg, h.endMsg = some msg) ∧
+        (hls.filter (·.isMultiline)).length < 256 ∧
+        (∀ h ∈ hls, wellBehaved sd.span.s.line sd.span.e.line h = true) ∧
+        (∃ h ∈ hls, h.isMultiline = true) := by
+  intro m a mid z hls
+  have hwf : Text.WF (a ++ mid ++ z) := by
+    intro c hc
+    simp [a, mid, z] at hc
+    rcases hc with rfl | rfl | rfl | rfl | rfl | rfl | rfl | rfl <;> decide
+  refine ⟨by decide, hwf, by decide, by decide, _,
+    spanDisplay_new_ok m a mid z hwf (by decide) (by decide) (some "src"), ?_, by decide, ?_, ?_⟩
+  · intro h hh
+    simp [hls] at hh
+    rcases hh with rfl | rfl <;> simp
+  · have hw : widenSpec m a mid z = ⟨⟨0, 0, 0⟩, ⟨8, 2, 2⟩⟩ := by
+      simp [widenSpec, curLinePre, curLineSuf, canon, canonFrom, linesOf, breakAt, lbCodes, stripCodes,
+        colWidth, bytes, Pos.zero, m, a, mid, z]
+    intro h hh
+    simp [hls] at hh
+    rcases hh with rfl | rfl <;> simp [hw, wellBehaved, Highlight.isMultiline]
+  · exact ⟨_, List.mem_cons_self, by decide⟩
+
+/-- The special case of single-line highlights only. -/
+theorem C16_layout_single_line (m : Metrics) (_htab : 1 ≤ m.tab) (a mid z : Text)
+    (hwf : Text.WF (a ++ mid ++ z))
+    (ha1 : aligned m a (mid ++ z) = true) (ha2 : aligned m (a ++ mid) z = true)
+    (name : Option String) (sd : SpanDisplay) (hls : List Highlight)
+    (hnew : SpanDisplay.new ⟨a ++ mid ++ z, m, Pos.zero⟩ name ⟨canon m a, canon m (a ++ mid)⟩ = .ok sd)
+    (hmsg : ∀ h ∈ hls, h.startMsg = none ∧ ∃ msg, h.endMsg = some msg)
+    (hsingle : ∀ h ∈ hls, h.isMultiline = false) :
+    ∃ pieces n,
+      (SplitLines.ofSpan sd.span ⟨a ++ mid ++ z, m, Pos.zero⟩).collect
+        (sd.span.e.line - sd.span.s.line + 2) = .ok (pieces, n) ∧
+      writeSpanDisplay plainPaint false ⟨a ++ mid ++ z, m, Pos.zero⟩ { sd with highlights := hls } =
+        .ok ("\n".intercalate (displayRows name sd.span sd.gutter
+              (pieceLines (a ++ mid ++ z) (pieces.map (·.2))) hls) ++ "\n") := by
+  refine C16_layout_partial m _htab a mid z hwf ha1 ha2 name sd hls hnew hmsg ?_ ?_
+  · have : hls.filter (·.isMultiline) = [] := by
+      rw [List.filter_eq_nil_iff]; intro h hh; simp [hsingle h hh]
+    rw [this]; simp
+  · intro h hh; simp [wellBehaved, hsingle h hh]
+
+/-- The abstract form of the layout theorem (any source; hypotheses on the pieces). -/
+theorem C16_layout_pieces (src : Source) (sd : SpanDisplay) (pieces : List (Nat × Span))
+    (n first last : Nat)
+    (hcollect : (SplitLines.ofSpan sd.span src).collect (sd.span.e.line - sd.span.s.line + 2) =
+      .ok (pieces, n))
+    (hnotes : sd.notes = [])
+    (hlen : (sd.highlights.filter (·.isMultiline)).length < 256)
+    (hok : ∀ h ∈ sd.highlights,
+      wellBehaved first last h = true ∧ h.startMsg = none ∧ ∃ msg, h.endMsg = some msg)
+    (lines : List (Nat × String))
+    (hlines : lines.map (·.1) = pieces.map (·.2.s.line))
+    (hfirst : ∃ rest, pieces.map (·.2.s.line) = first :: rest)
+    (hclip : ∀ p ∈ pieces, ∃ piece, src.clipped p.2 = .ok piece ∧
+      textString piece.text = ((lines.find? (·.1 == p.2.s.line)).map (·.2)).getD "") :
+    writeSpanDisplay plainPaint false src sd =
+      .ok ("\n".intercalate (displayRows sd.name sd.span sd.gutter lines sd.highlights) ++ "\n") :=
+  writeSpanDisplay_layout src sd pieces n first last hcollect hnotes hlen hok lines hlines hfirst hclip
+
+/-- the lines the layout oracle takes from `SplitLines` for a display (as `specRender` does) -/
+def displayLines (src : Source) (sd : SpanDisplay) : List (Nat × String) :=
+  match (SplitLines.ofSpan sd.span src).collect (sd.span.e.line - sd.span.s.line + 2) with
+  | .ok (pieces, _) => pieceLines src.text (pieces.map (·.2))
+  | .panic => []
+
+/-- a display of the text `t` built by `SpanDisplay::new` from a canonical span, with
+well-behaved highlights (each with exactly an end message) added afterwards -/
+def WellDisplay (m : Metrics) (t : Text) (sd : SpanDisplay) : Prop :=
+  ∃ (a mid z : Text) (name : Option String) (sd0 : SpanDisplay),
+    t = a ++ mid ++ z ∧ aligned m a (mid ++ z) = true ∧ aligned m (a ++ mid) z = true ∧
+    SpanDisplay.new ⟨t, m, Pos.zero⟩ name ⟨canon m a, canon m (a ++ mid)⟩ = .ok sd0 ∧
+    sd = { sd0 with highlights := sd.highlights } ∧
+    (∀ h ∈ sd.highlights, h.startMsg = none ∧ ∃ msg, h.endMsg = some msg) ∧
+    (sd.highlights.filter (·.isMultiline)).length < 256 ∧
+    (∀ h ∈ sd.highlights, wellBehaved sd.span.s.line sd.span.e.line h = true)
+
+/-- Layout of the whole plain report (extra hypothesis: every display is a `WellDisplay`, no
+report-level notes): the output is `Spec.reportRows`, each row followed by a newline — the
+comparison the differential driver makes (`specRender`), proved for all inputs. -/
+theorem C16_layout_report_partial (m : Metrics) (_htab : 1 ≤ m.tab) (t : Text) (hwf : Text.WF t)
+    (cd : CodeDisplay) (hcolor : cd.colorEnabled = false) (hnotes : cd.notes = [])
+    (hall : ∀ sd ∈ cd.spans, WellDisplay m t sd) :
+    writeCodeDisplay plainPaint ⟨t, m, Pos.zero⟩ cd =
+      .ok ("\n".intercalate (reportRows cd.mtype cd.message
+        (cd.spans.map fun sd =>
+          (sd.name, sd.span, sd.gutter, displayLines ⟨t, m, Pos.zero⟩ sd, sd.highlights))) ++ "\n") := by
+  apply writeCodeDisplay_layout _ cd hcolor hnotes
+  intro sd hsd
+  obtain ⟨a, mid, z, name, sd0, rfl, ha1, ha2, hnew, hsd0, hmsg, hmulti, hwell⟩ := hall sd hsd
+  rw [spanDisplay_new_ok m a mid z hwf ha1 ha2 name] at hnew
+  injection hnew with hnew
+  have hspan : sd.span = widenSpec m a mid z := by rw [hsd0, ← hnew]
+  have hno : sd.notes = [] := by rw [hsd0, ← hnew]
+  obtain ⟨pieces, n, hc, hw⟩ := writeSpanDisplay_layout_canon m a mid z hwf sd hspan hno hmulti
+    (fun h hh => ⟨hwell h hh, (hmsg h hh).1, (hmsg h hh).2⟩)
+  rw [hw]
+  simp only [displayLines, hc]
+
+/-! ### 6. escape codes -/
+
+/-- Removing `ESC [ … m` sequences from one painted string gives the string back (extra
+hypothesis: the string itself contains no ESC). -/
+theorem C16_strip_partial (st : Style) (s : String) (h : ∀ c ∈ s.toList, c.toNat ≠ 27) :
+    Fam.RenderF.stripAnsi ((ansi st s).toList.map (·.toNat)) = s.toList.map (·.toNat) :=
+  stripAnsi_ansi st s h
 
 end Tephra.Props
